@@ -226,6 +226,16 @@ main(int argc, char *argv[])
 		net_conn_shutdown(shutdown_abort);
 	}
 
+	/* a certificate in control/tlshosts demands that the host authenticates itself,
+	 * which is not possible if it does not offer STARTTLS */
+	if ((ssl == NULL) && tls_cert_pinned()) {
+		const char *logmsg[] = { "no STARTTLS offered by ", rhost, ", but a certificate is configured in control/tlshosts", NULL };
+
+		log_writen(LOG_WARNING, logmsg);
+		write_status("Z4.5.0 remote host does not offer STARTTLS, but control/tlshosts demands a verified certificate");
+		net_conn_shutdown(shutdown_clean);
+	}
+
 	if (ssl) {
 		successmsg[3] = "message ";
 		successmsg[4] = SSL_get_cipher(ssl);
